@@ -169,6 +169,27 @@ def mk_registry(h, n=3):
     return reg, orders, active
 
 
+def t_add_order(h):
+    """OrdersState.add_order: a submitted order of any type (LIMIT, STOP, MARKET), reduce-only or not, is recorded and - being
+    active - reported by the active-order selectors from the moment it is submitted"""
+    reg, orders, active = mk_registry(h, 2)
+    ty = h.ctx.fresh_str('type', among=['LIMIT', 'STOP', 'MARKET'])
+    ro = True if h.branch(h.bool('reduce_only')) else False
+    o = common.mk_order(h, side='sell', type=ty, qty=Fraction(-1), price=Fraction(10), symbol='BTC-USDT', exchange='Sandbox',
+                        reduce_only=ro, status='ACTIVE', id='new')
+    before = h.method(reg, 'count_active_orders', 'Sandbox', 'BTC-USDT')
+    out = h.method_outcome(reg, 'add_order', o)
+    h.prove(out.ok, 'registry.add-order.no-exception', {'raised': out.exc})
+    if not out.ok:
+        return
+    got = h.method(reg, 'get_active_orders', 'Sandbox', 'BTC-USDT')
+    allo = h.method(reg, 'get_orders', 'Sandbox', 'BTC-USDT')
+    h.prove(sum(1 for x in got if x is o) == 1 and sum(1 for x in allo if x is o) == 1,
+            'registry.add-order.the-new-order-is-listed-once-among-all-and-among-the-active-orders')
+    after = h.method(reg, 'count_active_orders', 'Sandbox', 'BTC-USDT')
+    h.prove(ops.equal(after, ops.arith('+', before, 1)), 'registry.add-order.the-active-count-grows-by-one')
+
+
 def t_registry(h, n=3):
     reg, orders, active = mk_registry(h, n)
     h.cover('registry.pre')
@@ -359,6 +380,7 @@ def tasks(tier):
     n_reg = 3 if tier == 'quick' else 5
     xb['bounded'] = f'registry of N={n_reg} orders (statuses symbolic)'
     ts.append(Task('registry', (lambda h: t_registry(h, n_reg)), extra=xb, overrides=dict(ov), max_paths=200000))
+    ts.append(Task('registry.add-order', t_add_order, extra=x, overrides=dict(ov), max_paths=20000))
     ts.append(Task('pending', t_pending, extra=x, overrides=dict(ov)))
     ts.append(Task('market-order', t_market_order_queued, extra=x, overrides=dict(ov)))
     for side in ('buy', 'sell'):
